@@ -108,6 +108,39 @@ def build_cases(ctx, gen, n_col_cases, n_index_cases, n_big, rng):
     return cases
 
 
+def threshold_cases(gen, first_id, rng, quick):
+    """boundary values of the writer / reader switches named in Columns.tla (TLC prints them): exactly n rows
+    with a value inside one 65,536-row block of the optional index, n around DenseBlockThreshold; merges that
+    produce such a block; through the columnar crate and through IndexWriter"""
+    def col(name, kind, card, count, block, pattern="small"):
+        return {"name": name, "kind": kind, "pattern": pattern, "card": card, "present": "exact", "density": count, "block": block,
+                "expect_type": {"u64": "i64"}.get(kind, kind)}
+    cases = []
+
+    def add(path, tables, merge, gen_case):
+        cases.append({"id": first_id + len(cases), "path": path, "seed": rng.randrange(1 << 30), "tables": tables, "merge": merge, "threshold": gen_case})
+    for t in [c for c in gen if c["what"] == "thr"]:
+        n, b = t["count"], t["block"]
+        kinds = [("u64", "optional"), ("str", "multi")] if b == 0 else [("i64", "optional"), ("ip", "multi"), ("bool", "optional")]
+        add("columnar", [{"nrows": t["nrows"], "cols": [col(f"t{i}_{'n' if k in ('u64', 'i64') else k}", k, c, n, b) for i, (k, c) in enumerate(kinds)]}],
+            {"order": "none"}, t)
+        if b == 0:
+            add("index", [{"nrows": t["nrows"], "cols": [col("u", "u64", "optional", n, 0, "linear"), col("s", "str", "optional", n, 0)]}], {"order": "none"}, t)
+    for t in [c for c in gen if c["what"] == "thrmerge"]:
+        n = sum(t["counts"])
+        exact = t["variants"][2] == "dense" and n == min(sum(x["counts"]) for x in gen if x["what"] == "thrmerge" and x["variants"][2] == "dense")
+        if quick and not exact and t["merge"]["order"] != "stack":
+            continue
+        tables = [{"nrows": sz, "cols": [col("m0_n", "u64", "optional", cnt, 0, "linear"), col("m1_str", "str", "optional", cnt, 0)]}
+                  for sz, cnt in zip(t["sizes"], t["counts"])]
+        add("columnar", tables, t["merge"], t)
+        if t["merge"]["order"] == "stack" and (exact or not quick):
+            tables = [{"nrows": sz, "cols": [col("u", "u64", "optional", cnt, 0, "linear"), col("ip", "ip", "multi", cnt, 0)]}
+                      for sz, cnt in zip(t["sizes"], t["counts"])]
+            add("index", tables, t["merge"], t)
+    return cases
+
+
 def pinpoint(ctx, unit, k):
     """which columns of a rejected read event are unexplained: judge them one by one"""
     e = unit[k - 1]
@@ -264,6 +297,11 @@ def run(ctx):
         raise vlib.ToolError("Gen_Columns produced too few cases")
     ctx.cov["generated_shapes"] = len(gen)
     cases = build_cases(ctx, gen, 110 if ctx.quick else 1100, 40 if ctx.quick else 400, 2 if ctx.quick else 12, rng)
+    thr = threshold_cases(gen, len(cases), rng, ctx.quick)
+    if len(thr) < 10:
+        raise vlib.ToolError("Gen_Columns produced no threshold cases")
+    ctx.cov["threshold_cases"] = len(thr)
+    cases += thr
     units, n_ok = run_cases(ctx, cases, "columns")
     log(f"[R/T] {len(cases)} cases from {len(gen)} TLC-generated column / merge shapes, {n_ok} accepted; {ctx.cov['columns']}")
     known_finding_run(ctx)
